@@ -207,7 +207,7 @@ package compactindexsized
 //@   mode int
 //@   requires b != nil && b.writer != nil && b.valueSize <= 255
 //@   requires len(key) <= 65535 && len(value) <= int(b.valueSize)
-//@   modifies b
+//@   modifies b, written(b.writer)
 
 //@ func (*Builder) Insert
 //@   mode int
